@@ -91,6 +91,9 @@ def names_unique(b):
 
 
 def link_text(l):
+    if l["kind"] == "explicit":      # applied to the atoms with these numbers, whatever the residues are
+        return "\n".join(["[ link ]", "[ molmeta ]", "by_atom_id true", "[ %s ]" % l["sec"],
+                          ("%d %d %s" % (l["ex"][0], l["ex"][1], " ".join(l["par"]))).rstrip()]) + "\n"
     rn = '"%s"' % "|".join(l["rns"])
     out = ["[ link ]", "resname %s" % rn]
     if l["kind"] == "bond":
@@ -176,7 +179,12 @@ def graph_layout(inp, rng):
     edges = [tuple(e) for e in inp["edges"]]
     rng.shuffle(edges)
     edges = [(a, b) if rng.random() < 0.5 else (b, a) for a, b in edges]
-    return {"keys": keys, "order": order, "edges": edges}
+    extra = {}
+    if rng.random() < 0.5:
+        for pos in range(n):
+            if rng.random() < 0.6:
+                extra[str(pos)] = rng.choice([{"charge": 9.75}, {"mass": 999.0, "chiral": "R"}, {"atype": "ZZ9", "charge_group": 77}, {"chiral": "S"}])
+    return {"keys": keys, "order": order, "edges": edges, "extra": extra}
 
 
 def node_attrs(inp, pos):
@@ -186,18 +194,24 @@ def node_attrs(inp, pos):
     return d
 
 
+def extra_attrs(lay, pos):
+    """attributes a sequence file may give a residue node (gen_seq -label ...); they belong to the residue node and its
+    'graph' fragment, never to the atoms of the molecule - also when their names collide with atom attributes"""
+    return dict(lay.get("extra", {}).get(str(pos), {}))
+
+
 def build_graph(inp, lay):
     import networkx as nx
     g = nx.Graph()
     for pos in lay["order"]:
-        g.add_node(lay["keys"][pos], **node_attrs(inp, pos))
+        g.add_node(lay["keys"][pos], **node_attrs(inp, pos), **extra_attrs(lay, pos))
     for a, b in lay["edges"]:
         g.add_edge(lay["keys"][a - 1], lay["keys"][b - 1])
     return g
 
 
 def write_json_graph(inp, lay, path):
-    nodes = [dict(id=lay["keys"][pos], **node_attrs(inp, pos)) for pos in lay["order"]]
+    nodes = [dict(id=lay["keys"][pos], **node_attrs(inp, pos), **extra_attrs(lay, pos)) for pos in lay["order"]]
     edges = [{"source": lay["keys"][a - 1], "target": lay["keys"][b - 1]} for a, b in lay["edges"]]
     Path(path).write_text(json.dumps({"directed": False, "multigraph": False, "graph": {}, "nodes": nodes, "edges": edges}))
 
